@@ -48,6 +48,11 @@ SCENARIOS = {
     # experimental requests answered by an experimental (non-error) reply: only one at a time
     'unknown_reply': dict(callers=[('read', 'm:p1'), ('foo', 'm:p1')], xreply=True),
     'two_unknown': dict(callers=[('foo', 'm:p1'), ('bar', 'm:p2'), ('read', 'm:p1')], xreply=True),
+    # a client that reconnects by itself (activate on): the reconnect thread must end with the shutdown,
+    # callers during the outage are refused, callers after the node is back are served
+    'active_drop_user': dict(activate=True, callers=[('read', 'm:p1'), ('read', 'm:p2')], drop=True, user=True, user_after=3.5),
+    'active_reopen_user': dict(activate=True, reopen=2, callers=[('read', 'm:p1'), ('read', 'm:p2', 1.2), ('read', 'm:p1', 6.0)],
+                               drop=True, anytime=True, user=True, user_after=8.0),
     # a request that timed out must not block a later request with the same key
     'timeout_then_same': dict(callers=[('read', 'm:p1'), ('read', 'm:p1', 11.5)], ignore=[1]),
 }
@@ -85,6 +90,12 @@ def alpha(r, sc):
             tr.append({'ev': 'pdrop', 'vt': vt})
         elif ev == 'io_shutdown':
             tr.append({'ev': 'ioshut', 'vt': vt})
+        elif ev == 'peer_reopen':
+            tr.append({'ev': 'reopen', 'vt': vt})
+        elif ev == 'connect_refused':
+            tr.append({'ev': 'refused', 'vt': vt})
+        elif ev == 'state':
+            tr.append({'ev': 'state', 'online': e['online'], 'state': e['state'], 'vt': vt})
         elif ev == 'disc_call':
             tr.append({'ev': 'disc_call', 'who': e['who'], 'vt': vt})
         elif ev == 'disc_ret':
